@@ -27,7 +27,7 @@ var Check = &vrt.Check{
 		"per-MID accept/reject/defer policy, role, MOTD, batched/unbatched handlers, GZIP_EXPERIMENT on/off on both sides, 4 read segmentations) between two real Sessions; " +
 		"non-trivial = at least one message body was transferred; distinct = distinct (scenario index, transferred MIDs) signatures",
 	Assumptions: []string{
-		"MOTD lines are printable text that is not itself protocol (not starting with [ ; * and not ending in >)",
+		"MOTD lines are printable text that is not itself protocol (not starting with [ or ; and not ending in >); lines that begin with asterisks are included (banners, the CMS statistics line)",
 		"GZIP_EXPERIMENT is process-global: on/on and off/off run in-process; the asymmetric settings run with station B in a child process (Unix socketpair link), where the cross-station ordering clause (reported sent only after delivery) is not evaluated for lack of a common clock - C02 decides it",
 		"mailboxes are the in-memory reference handler (the directory mailbox is exercised by C02/C10-C12)",
 	},
